@@ -93,6 +93,16 @@ def edge_shapes(tier):
     ]
     for j, (st, shs) in enumerate(bodies):
         cases += A.both_modes("c01sh-%d" % j, A.file([A.stanza("(module) @_m ", st)], shorthands=shs), 1 + j % 3)
+    # every syntax function on every node that has a parent, on trees with zero-width nodes (MISSING nodes, empty blocks), comments,
+    # errors, same-range parents and children, no final line break
+    names = A.source_names()
+    odd = [j + 1 for j, nm in enumerate(names) if any(k in nm for k in ("s12_", "s17a_", "s17e_", "s17f_", "s17g_", "s17h_", "s09_"))]
+    synq = "(_ (_) @x) "
+    syn_stmts = [A.node(v("n")), A.attrn(v("n"), A.attr("idx", A.call("named-child-index", c("x"))), A.attr("ty", A.call("node-type", c("x"))),
+                                 A.attr("txt", A.call("source-text", c("x"))), A.attr("sr", A.call("start-row", c("x"))), A.attr("sc", A.call("start-column", c("x"))),
+                                 A.attr("er", A.call("end-row", c("x"))), A.attr("ec", A.call("end-column", c("x"))), A.attr("cnt", A.call("named-child-count", c("x"))))]
+    for sidx in odd:
+        cases += A.both_modes("c01syn-%d" % sidx, A.file([A.stanza(synq, syn_stmts)]), sidx)
     # a wide tree: 300 sibling statements, each paired with the last one (no match may be lost, in either mode)
     pair_q = "(module (expression_statement (identifier) @name) (pass_statement) @end) "
     cases += A.both_modes("c01wide", A.file([A.stanza(pair_q, [A.node(v("n")), A.attrn(v("n"), A.attr("of", A.call("source-text", c("name")))), A.let(v("e"), c("end"))])]), A.wide_source())
